@@ -147,6 +147,14 @@ def apply_rewrites(reply, rewrites, ctx):
             p = snmp.find(tree, "pdu")
             p.tag = spec
             label["pdu"] = snmp.PDU_NAMES.get(spec, "unknown")
+            if spec in (snmp.PDU_GET, snmp.PDU_GETNEXT, snmp.PDU_GETBULK):
+                # a well-formed request binds every name to NULL (and has no error status)
+                for _, n in tree.walk():
+                    if n.name == "varbind" and n.children and len(n.children) == 2:
+                        n.children[1] = ber.prim(0x05, b"", name="value")
+                for nm in ("error-status", "error-index"):
+                    _set_int(tree, nm, 0 if spec != snmp.PDU_GETBULK or nm == "error-status" else 10)
+                label["varbinds"] = [[o, ["null"]] for o, _ in label.get("varbinds", [])]
         elif field == "error-status":
             if _set_int(tree, "error-status", spec):
                 label["error_status"] = spec
